@@ -90,7 +90,7 @@ impl Opnd {
             Opnd::Reg8(r) => json!({"k":"reg8","r":r}),
             Opnd::Reg16(r) => json!({"k":"reg16","r":r}),
             Opnd::Sreg(r) => json!({"k":"sreg","r":r}),
-            Opnd::Imm(v) => json!({"k":"imm","v": (*v as i64).rem_euclid(65536)}),
+            Opnd::Imm(v) => json!({"k":"imm","v": (*v as i64).rem_euclid(65536), "raw": v}),
             Opnd::Mem { seg, base, index, disp, .. } => {
                 json!({"k":"mem","seg":seg,"base":base,"index":index,"disp":disp})
             }
@@ -159,6 +159,8 @@ pub enum Ins {
     Int { n: u32 },
     Str { op: &'static str, w: u8, rep: &'static str, repmn: &'static str },
     Print { what: PrintWhat },
+    /// source text that every assembler must refuse (unsupported mnemonic, ill-typed operands)
+    Unsupported { text: String },
 }
 
 /// the argument of a print statement / prompt print command
@@ -231,6 +233,7 @@ impl Ins {
             Ins::Int { n } => json!({"cls":"int","n":n}),
             Ins::Str { op, w, rep, .. } => json!({"cls":"string","op":op,"w":w,"rep":rep}),
             Ins::Print { what } => json!({"cls":"print","what":what.to_json()}),
+            Ins::Unsupported { text } => json!({"cls":"unsupported","text":text}),
         }
     }
 
@@ -276,6 +279,7 @@ impl Ins {
                 }
             }
             Ins::Print { what } => what.to_src(sp),
+            Ins::Unsupported { text } => text.clone(),
         }
     }
 }
